@@ -767,3 +767,5 @@ def run(ck):
         c16_5(ck, prog, 'C01.9')
         c01_10(ck, prog)
         c01_11(ck, prog)
+        from rules import cursor
+        cursor.check(ck, prog, 'C01.12')
